@@ -163,13 +163,8 @@ class Unbuildable(Exception):
     pass
 
 
-def build(spec, Model):
-    """-> (model, [IntVar...], [built constraint objects...]).  Raises Unbuildable when an operator
-    combination is rejected by the library with TypeError (a loud, documented refusal)."""
-    m = Model()
-    xs = []
-    for name, lb, ub in spec["vars"]:
-        xs.append(m.int_var(lb, ub, name) if name is not None else m.int_var(lb, ub))
+def build_con(m, xs, con):
+    """Construct one constraint object through the public constructors / operators (not yet added to the model)."""
 
     def bx(e):
         t = e[0]
@@ -187,32 +182,53 @@ def build(spec, Model):
             return e[1] * bx(e[2])
         raise ValueError(e)
 
+    k = con[0]
+    try:
+        if k == "rel":
+            a, b = bx(con[2]), bx(con[3])
+            c = (a == b) if con[1] == "eq" else (a != b)
+            if not isinstance(c, tuple):
+                raise Unbuildable(f"comparison produced {c!r}")
+        elif k == "all_different":
+            c = m.all_different([xs[i] for i in con[1]])
+        elif k in ("sum_eq", "sum_le", "sum_ge"):
+            c = getattr(m, k)([xs[i] for i in con[1]], con[2])
+        elif k == "circuit":
+            c = m.circuit([xs[i] for i in con[1]])
+        elif k == "no_overlap":
+            c = m.no_overlap([xs[i] for i in con[1]], list(con[2]))
+        elif k == "cumulative":
+            c = m.cumulative([xs[i] for i in con[1]], list(con[2]), list(con[3]), con[4])
+        else:
+            raise ValueError(con)
+    except TypeError as e:
+        raise Unbuildable(str(e))
+    return c
+
+
+def build(spec, Model):
+    """-> (model, [IntVar...], [built constraint objects...]).  Raises Unbuildable when an operator
+    combination is rejected by the library with TypeError (a loud, documented refusal)."""
+    m = Model()
+    xs = []
+    for name, lb, ub in spec["vars"]:
+        xs.append(m.int_var(lb, ub, name) if name is not None else m.int_var(lb, ub))
     built = []
     for con in spec["cons"]:
-        k = con[0]
-        try:
-            if k == "rel":
-                a, b = bx(con[2]), bx(con[3])
-                c = (a == b) if con[1] == "eq" else (a != b)
-                if not isinstance(c, tuple):
-                    raise Unbuildable(f"comparison produced {c!r}")
-            elif k == "all_different":
-                c = m.all_different([xs[i] for i in con[1]])
-            elif k in ("sum_eq", "sum_le", "sum_ge"):
-                c = getattr(m, k)([xs[i] for i in con[1]], con[2])
-            elif k == "circuit":
-                c = m.circuit([xs[i] for i in con[1]])
-            elif k == "no_overlap":
-                c = m.no_overlap([xs[i] for i in con[1]], list(con[2]))
-            elif k == "cumulative":
-                c = m.cumulative([xs[i] for i in con[1]], list(con[2]), list(con[3]), con[4])
-            else:
-                raise ValueError(con)
-        except TypeError as e:
-            raise Unbuildable(str(e))
+        c = build_con(m, xs, con)
         m.add(c)
         built.append(c)
     return m, xs, built
+
+
+def extend(spec, m, xs, new_vars, new_cons):
+    """Add variables and constraints to an already built (and possibly already solved) model; returns the new spec."""
+    spec2 = {"vars": list(spec["vars"]) + list(new_vars), "cons": list(spec["cons"]) + list(new_cons)}
+    for name, lb, ub in new_vars:
+        xs.append(m.int_var(lb, ub, name) if name is not None else m.int_var(lb, ub))
+    for con in new_cons:
+        m.add(build_con(m, xs, con))
+    return spec2
 
 
 # ------------------------------------------------------------------ CNF: all models projected on some variables
